@@ -366,4 +366,7 @@ class C14(Prop):
             sim.fail_post("loop-error", f"loop exception handler called: {sim.loop_errors[:2]}")
 
 
+from sim.prop import with_eager  # noqa: E402
+
+C14.tiers = with_eager(C14.tiers, [('async', 60000)])
 PROPS = {"C14": C14()}
